@@ -15,6 +15,7 @@
 package set
 
 import (
+	"encoding/json"
 	"math/rand"
 	"slices"
 	"unsafe"
@@ -214,4 +215,29 @@ func Union(sets ...*Set) *Set {
 		right := Union(sets[len(sets)/2:]...)
 		return Union(left, right)
 	}
+}
+
+// The set is persisted (snapshots, AOF preamble) as the list of its members.
+func init() {
+	internal.RegisterCompositeCodec("set", internal.CompositeCodec{
+		Marshal: func(v interface{}) ([]byte, bool, error) {
+			s, ok := v.(*Set)
+			if !ok {
+				return nil, false, nil
+			}
+			members := []string{}
+			if s != nil {
+				members = append(members, s.GetAll()...)
+			}
+			b, err := json.Marshal(members)
+			return b, true, err
+		},
+		Unmarshal: func(b []byte) (interface{}, error) {
+			var members []string
+			if err := json.Unmarshal(b, &members); err != nil {
+				return nil, err
+			}
+			return NewSet(members), nil
+		},
+	})
 }
